@@ -1,6 +1,7 @@
 import InfluxQL.Lemmas.StmtPieces
 import InfluxQL.Lemmas.StmtExprPieces
 import InfluxQL.Lemmas.AdminPieces
+import InfluxQL.Lemmas.SelectClauses
 /-
 Pieces for the SHOW statements with a `WITH KEY` / `WITH MEASUREMENT` / `ON db.rp` clause (C02):
 the comparison tokens `!=`, `=~`, `!~`, the parentheses and `*` as printed pieces, the identifier
@@ -554,5 +555,77 @@ theorem parseWithMeas_print (s : PState) (m : MeasSpec) (rest : Str) (hok : m.ok
       rfl
     rw [P.run_bind _ _ s3 _ s4 hsrc]
     rfl
+
+/-! ## the cardinality statements -/
+
+/-- ` EXACT` when set. -/
+def exactText (ex : Bool) : Str := if ex then ' ' :: Token.EXACT.str else []
+
+/-- The optional `EXACT` before `CARDINALITY`. -/
+theorem optExact_print (s : PState) (ex : Bool) (rest : Str) (hw : WordEnd rest)
+    (hs : s.Around (exactText ex ++ (' ' :: (Token.CARDINALITY.str ++ rest)))) :
+    ∃ s', (optTok .EXACT).run s = .ok (ex, s') ∧ s'.Around (' ' :: (Token.CARDINALITY.str ++ rest)) := by
+  cases ex with
+  | true =>
+    obtain ⟨s1, h1, b1⟩ := optTok_piece s [' '] Token.EXACT.str _ .EXACT [] Gap.blank
+      (by simpa only [exactText, if_true, List.cons_append, List.append_assoc, List.nil_append] using hs)
+      (scansAs_kw .EXACT _ (by decide +kernel) (WordEnd.blank _))
+    exact ⟨s1, h1, b1.around⟩
+  | false =>
+    exact optTok_absent_around .EXACT s _ (by simpa [exactText] using hs)
+      (nextNot_kw .CARDINALITY .EXACT rest (by decide +kernel) (by decide) hw)
+
+/-- The tokens that continue a cardinality statement. -/
+def cardStop : List Token := [.EXACT, .CARDINALITY, .ON, .FROM, .COMMA, .WITH, .WHERE, .GROUP, .LIMIT, .OFFSET]
+
+/-- `[WHERE cond] [GROUP BY dims] [LIMIT l] [OFFSET o]`. -/
+def cardRestText (c : Option Expr) (ds : List Expr) (l o : Int) : Str :=
+  whereText c ++ (groupText ds ++ (posText .LIMIT l ++ posText .OFFSET o))
+
+theorem cardRest_follow (c : Option Expr) (ds : List Expr) (l o : Int) (k : Str) (hk : Follow k cardStop) :
+    Follow (posText .OFFSET o ++ k) [.EXACT, .CARDINALITY, .ON, .FROM, .COMMA, .WITH, .WHERE, .GROUP, .LIMIT] ∧
+    Follow (posText .LIMIT l ++ (posText .OFFSET o ++ k)) [.EXACT, .CARDINALITY, .ON, .FROM, .COMMA, .WITH, .WHERE, .GROUP] ∧
+    Follow (groupText ds ++ (posText .LIMIT l ++ (posText .OFFSET o ++ k)))
+      [.EXACT, .CARDINALITY, .ON, .FROM, .COMMA, .WITH, .WHERE] ∧
+    Follow (whereText c ++ (groupText ds ++ (posText .LIMIT l ++ (posText .OFFSET o ++ k))))
+      [.EXACT, .CARDINALITY, .ON, .FROM, .COMMA, .WITH] := by
+  have g5 : Follow (posText .OFFSET o ++ k) [.EXACT, .CARDINALITY, .ON, .FROM, .COMMA, .WITH, .WHERE, .GROUP, .LIMIT] :=
+    Follow.opt (kwText_pos _ _) (by decide +kernel) rfl (by decide) (hk.mono (by decide))
+  have g4 : Follow (posText .LIMIT l ++ (posText .OFFSET o ++ k))
+      [.EXACT, .CARDINALITY, .ON, .FROM, .COMMA, .WITH, .WHERE, .GROUP] :=
+    Follow.opt (kwText_pos _ _) (by decide +kernel) rfl (by decide) (g5.mono (by decide))
+  have g3 : Follow (groupText ds ++ (posText .LIMIT l ++ (posText .OFFSET o ++ k)))
+      [.EXACT, .CARDINALITY, .ON, .FROM, .COMMA, .WITH, .WHERE] :=
+    Follow.opt (kwText_group _) (by decide +kernel) rfl (by decide) (g4.mono (by decide))
+  have g2 : Follow (whereText c ++ (groupText ds ++ (posText .LIMIT l ++ (posText .OFFSET o ++ k))))
+      [.EXACT, .CARDINALITY, .ON, .FROM, .COMMA, .WITH] :=
+    Follow.opt (kwText_where _) (by decide +kernel) rfl (by decide) (g3.mono (by decide))
+  exact ⟨g5, g4, g3, g2⟩
+
+/-- The common tail of the cardinality handlers — condition, dimensions, limit, offset, and the
+statement built from them by `C` — on its printed form. -/
+theorem cardRest_print (fuel : Nat) (s : PState) (C : Option Expr → List Expr → Int → Int → Statement)
+    (c : Option Expr) (ds : List Expr) (l o : Int) (k : Str) (hc : CondOK c) (hds : ∀ x ∈ ds, RT.rtOK false x = true)
+    (hl : 0 ≤ l ∧ l ≤ maxInt64) (ho : 0 ≤ o ∧ o ≤ maxInt64) (hk : Follow k cardStop)
+    (hs : RT.Stand s (whereText c ++ (groupText ds ++ (posText .LIMIT l ++ (posText .OFFSET o ++ k))))) :
+    wp (do
+      let cond ← parseCondition fuel
+      let dims ← parseDimensions fuel
+      let limit ← parseOptTokInt .LIMIT
+      let offset ← parseOptTokInt .OFFSET
+      pure (C cond dims limit offset)) s (fun st s' => st = C c ds l o ∧ RT.Stand s' k) (· = .fuel) := by
+  obtain ⟨g5, g4, g3, _⟩ := cardRest_follow c ds l o k hk
+  rw [wp_bind]
+  refine wp_mono (parseCondition_print fuel s c _ hc (g3.mono (by decide)) hs) ?_ (fun _ h => h)
+  intro c' s1 ⟨hc', st1⟩
+  subst hc'
+  rw [wp_bind]
+  refine wp_mono (parseDimensions_print fuel s1 ds _ hds (g4.mono (by decide)) st1) ?_ (fun _ h => h)
+  intro ds' s2 ⟨hds', st2⟩
+  subst hds'
+  obtain ⟨s3, h3, st3⟩ := parseOptTokInt_print .LIMIT (by decide +kernel) s2 l _ hl.1 hl.2 (g5.mono (by decide)) st2
+  obtain ⟨s4, h4, st4⟩ := parseOptTokInt_print .OFFSET (by decide +kernel) s3 o k ho.1 ho.2 (hk.mono (by decide)) st3
+  rw [wp_bind, wp_of_run_ok h3, wp_bind, wp_of_run_ok h4, wp_pure]
+  exact ⟨rfl, st4⟩
 
 end InfluxQL
